@@ -31,3 +31,13 @@ Theorem C07_mul_normal_range_partial est : est_in_range est -> forall c (x y : d
   exists d f, ctx_mul est c x y = Ok (finish c d f) /\ c07_post c d.
 Proof. exact (c07_mul_normal_range_partial est). Qed.
 Print Assumptions C07_mul_normal_range_partial.
+
+(* Quo: for EVERY pair of finite operands with a non-zero divisor - any digit counts, any exponents, ties,
+   all-nines carries, quotients in, above and below the normal range (where Quo keeps the remainder as a
+   sticky digit and setExponent rounds once to Etiny).  quo_hyps: well-formed context and operands, and
+   the exponent of the quotient (mag_frac: its decimal magnitude) stays inside the package limits with
+   room for a carry ("subject only to the exponent limits"). *)
+Theorem C07_quo est : est_in_range est -> forall c (x y : dec), quo_hyps c x y ->
+  exists d f, ctx_quo est c x y = Ok (finish c d f) /\ c07_post c d.
+Proof. exact (c07_quo est). Qed.
+Print Assumptions C07_quo.
